@@ -520,3 +520,29 @@ PROPS = {
         "thorough": box(16, 1500, 480, floor_evaluations=400, floor_shapes=20),
     },
 }
+
+
+# scenario families added while the checks were strengthened against seeded changes (DESIGN 0.2, 0.5)
+RULE_ADDENDA = {
+    "C01": "per-case equivalent builder call sequences; reopen_output() with the file in place is one of the operations",
+    "C02": "lists with several addressees in every order and with _Default, each preceded by an enabled() query; a text-filter-only run-time change",
+    "C03": "every 4th file case uses a format that refuses sprinkled records; every 16th case is a file + stderr duplicate whose format refuses",
+    "C04": "a third of the in-process cases route records to an additional file writer; endings include two concurrent shutdowns; 1 of 8 cases is flush() while 1-4 other threads log",
+    "C06": "every 16th case is a DST child (history in one pass of the repeated hour vs. the same history a week later, 4 zones, optional file from the skipped hour, listing against the directory); empty discriminant among the name parts",
+    "C07": "background-cleanup cases hold the logging thread back between rename and writer swap; judged only now and then",
+    "C08": "reopen_output() with the file in place is one of the operations",
+    "C09": "reopen_output() with the file in place is one of the operations",
+    "C10": "memory buffer as primary output with limits around the line lengths; recursion nesting depth 2-4; every 32nd case is a DST child",
+    "C11": "histories contain reopen_output() with the file in place",
+    "C12": "two thirds of the cases register an additional writer of low ceiling; every 20th case has the specfile watcher as one more controlled participant",
+    "C13": "lists with repeated names; an enabled() query per routed record",
+    "C14": "near-miss classes include <fixed>_<infix>.gz without the suffix and sub-directories named like a family file",
+    "C15": "parameterless write-mode variants take part",
+    "C16": "per-case equivalent builder call sequences; try_from paths also with rotation + listing; every 32nd case is a DST child",
+    "C17": "a tenth of the strings is long; every 16th string also through the RUST_LOG entry points; blank-part vs empty-part relation for inputs the docs leave open",
+    "C18": "every 8th case: primary file/stderr/stdout + an additional file writer, one reopen_output for all, immediate reads of unbuffered files; every 16th case: reopen_output in a loop while 2-4 threads log through rotations",
+    "C19": "a bystander file writer in every fault history; a third of the cases with the background cleanup thread; partition under cleanup faults and cleanup limits after recovery are judged; real faults: blocked rotation target, rotated name longer than NAME_MAX, controlled failed-open-then-background-cleanup order, RLIMIT_FSIZE",
+    "C20": "shards 4-7 and 12-15 run with UTC forced; children configure formats explicitly, through AdaptiveFormat, or not at all",
+}
+for _k, _v in RULE_ADDENDA.items():
+    PROPS[_k]["rule"] = PROPS[_k]["rule"] + " | added scenario families: " + _v
